@@ -339,9 +339,10 @@ class DefaultPredictionStrategy(object):
         # GP, and using addmv requires you to to_dense test_train_covar, which is obviously a huge no-no!
 
         # see https://github.com/cornellius-gp/gpytorch/pull/2317#discussion_r1157994719
+        # (the mean cache carries exactly the batch dimensions of the train-train covariance, fantasy strategies
+        # included: no dimension of it may be dropped here - a 4-dimensional cache is what a model with three batch
+        # dimensions has, and squeezing a size-1 batch dimension out of it misaligns the broadcast below)
         mean_cache = self.mean_cache
-        if len(mean_cache.shape) == 4:
-            mean_cache = mean_cache.squeeze(1)
 
         # Handle NaNs
         nan_policy = settings.observation_nan_policy.value()
